@@ -105,3 +105,7 @@ SHARDS.update({
     "urwid/vterm.py:TermCanvas.csi_set_attr": (12, 6),
     "urwid/vterm.py:TermCanvas.sgi_to_attrspec": (6, 4),
 })
+
+SHARDS.update({
+    "urwid/widget/listbox.py:ListBox.change_focus#C07-scroll": (4, 6),
+})
